@@ -6,7 +6,7 @@ open OllamaVerif.Lockset
 def classNames : List String := ["Scheduler.expiredCh", "Scheduler.finishedReqCh", "Scheduler.getCpuFn", "Scheduler.getGpuFn", "Scheduler.loadFn", "Scheduler.loaded", "Scheduler.newServerFn", "Scheduler.pendingReqCh", "Scheduler.reschedDelay", "Scheduler.unloadedCh", "Server.addr", "Server.sched", "blobDownload.CancelFunc", "blobDownload.Completed", "blobDownload.Digest", "blobDownload.Name", "blobDownload.Parts", "blobDownload.Total", "blobDownload.done", "blobDownload.err", "blobDownload.references", "blobDownloadPart.Completed", "blobDownloadPart.N", "blobDownloadPart.Offset", "blobDownloadPart.Size", "blobDownloadPart.blobDownload", "blobDownloadPart.lastUpdated", "blobUpload.CancelFunc", "blobUpload.Completed", "blobUpload.Layer", "blobUpload.Parts", "blobUpload.Total", "blobUpload.done", "blobUpload.err", "blobUpload.file", "blobUpload.nextURL", "blobUpload.references", "blobUploadPart.Hash", "blobUploadPart.N", "blobUploadPart.Offset", "blobUploadPart.Size", "global.blobDownloadManager", "global.blobUploadManager", "global.intermediateBlobs", "runnerRef.Options", "runnerRef.estimatedTotal", "runnerRef.estimatedVRAM", "runnerRef.expireTimer", "runnerRef.expiresAt", "runnerRef.gpus", "runnerRef.llama", "runnerRef.loading", "runnerRef.model", "runnerRef.modelPath", "runnerRef.numParallel", "runnerRef.refCount", "runnerRef.sessionDuration"]
 def lockNames : List String := ["Scheduler.loadedMu", "blobDownloadPart.lastUpdatedMu", "runnerRef.refMu"]
 def threadNames : List String := ["Scheduler.Run$1", "Scheduler.Run$2", "Scheduler.load$1", "Scheduler.load$1$1", "Scheduler.processCompleted$1", "Scheduler.processCompleted$2", "Scheduler.processPending$1", "Serve$2", "Server.CreateHandler$1", "Server.PullHandler$1", "Server.PushHandler$1", "api", "blobDownload.downloadChunk$1", "blobDownload.downloadChunk$2", "blobDownload.run$2", "blobUpload.Run$1", "go:downloadBlob:download.Run", "go:uploadBlob:upload.Run", "main", "runnerRef.waitForVRAMRecovery$1"]
-def siteNames : List String := ["InitScheduler:70", "Scheduler.processPending:295", "Scheduler.processCompleted:342", "Scheduler.expireRunner:845", "Scheduler.processCompleted$1:353", "Scheduler.processCompleted$2:376", "Scheduler.load$1:477", "InitScheduler:69", "Scheduler.processPending:153", "Scheduler.processCompleted:325", "Scheduler.load$1$1:485", "InitScheduler:75", "Scheduler.processPending:167", "InitScheduler:74", "Scheduler.processPending:169", "InitScheduler:78", "Scheduler.processPending:217", "Server.PsHandler:1433", "InitScheduler:72", "Scheduler.processPending:145", "Scheduler.processCompleted:327", "Scheduler.processCompleted:391", "Scheduler.updateFreeSpace:498", "Scheduler.filterGPUsWithoutLoadingModels:538", "Scheduler.findRunnerToUnload:792", "Scheduler.findRunnerToUnload:793", "Scheduler.unloadAllRunners:824", "Scheduler.expireRunner:835", "Scheduler.publish:870", "Scheduler.publish:871", "InitScheduler:73", "Scheduler.load:441", "InitScheduler:68", "Scheduler.GetRunner:98", "Scheduler.processPending:123", "Scheduler.processPending$1:273", "InitScheduler:76", "Scheduler.processPending$1:272", "InitScheduler:71", "Scheduler.processPending:306", "Scheduler.processCompleted:399", "Server.GenerateRoutes:1206", "Serve:1308", "Server.scheduleRunner:109", "Server.GenerateHandler:167", "Serve:1329", "Serve:1355", "Server.PsHandler:1432", "Server.ChatHandler:1498", "blobDownload.release:432", "downloadBlob:498", "blobDownloadPart.Write:120", "blobDownload.Prepare:142", "blobDownload.Wait:450", "blobDownload.downloadChunk$1:346", "blobDownload.Prepare:178", "blobDownload.run:216", "blobDownload.Wait:447", "blobDownload.run$2:295", "blobDownload.downloadChunk$2:374", "blobDownloadPart.Name:106", "blobDownload.Prepare:128", "blobDownload.run:218", "blobDownload.run:322", "blobDownload.Prepare:143", "blobDownload.run:275", "blobDownload.newPart:391", "blobDownload.newPart:396", "blobDownload.Prepare:141", "blobDownload.Prepare:155", "blobDownload.run:225", "blobDownload.Wait:449", "blobDownload.Prepare:133", "blobDownload.Run:185", "blobDownload.Wait:443", "blobDownload.Run:186", "blobDownload.Wait:444", "blobDownload.acquire:427", "blobDownload.release:431", "blobDownloadPart.MarshalJSON:80", "blobDownloadPart.UnmarshalJSON:94", "blobDownloadPart.StartsAt:111", "blobDownload.run:277", "blobDownload.downloadChunk$1:343", "blobDownload.downloadChunk$1:350", "blobDownload.downloadChunk$2:364", "blobDownloadPart.MarshalJSON:77", "blobDownloadPart.UnmarshalJSON:90", "blobDownloadPart.MarshalJSON:78", "blobDownloadPart.UnmarshalJSON:91", "blobDownloadPart.StopsAt:115", "blobDownloadPart.MarshalJSON:79", "blobDownloadPart.UnmarshalJSON:92", "blobDownload.readPart:412", "blobDownloadPart.Write:122", "blobDownload.downloadChunk$2:369", "blobDownload.downloadChunk$2:377", "blobUpload.release:320", "uploadBlob:398", "blobUpload.Prepare:87", "blobUpload.Wait:340", "progressWriter.Write:365", "progressWriter.Rollback:370", "blobUpload.Prepare:54", "blobUpload.Run:128", "blobUpload.Run:196", "blobUpload.uploadPart:276", "blobUpload.Wait:337", "blobUpload.Run$1:161", "blobUpload.Prepare:107", "blobUpload.Run:145", "blobUpload.Prepare:82", "blobUpload.Wait:339", "blobUpload.Prepare:88", "blobUpload.Run:220", "blobUpload.Wait:343", "blobUpload.Run:132", "blobUpload.Run:175", "blobUpload.Wait:344", "blobUpload.Run:136", "blobUpload.Run:141", "blobUpload.uploadPart:233", "blobUpload.Prepare:120", "blobUpload.Prepare:121", "blobUpload.Run:149", "blobUpload.uploadPart:259", "blobUpload.acquire:315", "blobUpload.release:319", "blobUpload.uploadPart:310", "blobUpload.uploadPart:230", "blobUpload.Prepare:112", "blobUpload.uploadPart:226", "Server.CreateBlobHandler:1038", "Server.CreateBlobHandler:1047", "Scheduler.load:457", "runnerRef.unload:588", "runnerRef.needsReload:602", "runnerRef.needsReload:607", "Server.PsHandler:1446", "Scheduler.load:461", "Server.PsHandler:1447", "Scheduler.load:460", "runnerRef.waitForVRAMRecovery$1:680", "Scheduler.processPending:289", "Scheduler.processPending:290", "Scheduler.processPending:291", "Scheduler.processCompleted:338", "Scheduler.processCompleted:339", "Scheduler.processCompleted:340", "Scheduler.processCompleted:345", "LlmRequest.useLoadedRunner:417", "LlmRequest.useLoadedRunner:418", "LlmRequest.useLoadedRunner:419", "runnerRef.unload:579", "runnerRef.unload:580", "runnerRef.unload:581", "Scheduler.expireRunner:839", "Scheduler.expireRunner:840", "Scheduler.expireRunner:841", "Scheduler.processCompleted$1:349", "Scheduler.processCompleted$1:350", "Scheduler.processCompleted$1:351", "Server.PsHandler:1450", "Scheduler.processCompleted:355", "Scheduler.processCompleted:359", "Scheduler.expireRunner:838", "Scheduler.load:459", "Scheduler.filterGPUsWithoutLoadingModels:540", "runnerRef.unload:589", "runnerRef.waitForVRAMRecovery:646", "Server.scheduleRunner:117", "LlmRequest.useLoadedRunner:411", "Scheduler.load:456", "Scheduler.updateFreeSpace:500", "Scheduler.updateFreeSpace:502", "runnerRef.unload:583", "runnerRef.unload:584", "runnerRef.unload:587", "runnerRef.needsReload:626", "Scheduler.unloadAllRunners:825", "Scheduler.unloadAllRunners:827", "Scheduler.load:462", "Scheduler.filterGPUsWithoutLoadingModels:539", "runnerRef.needsReload:598", "Scheduler.load$1:481", "Server.PsHandler:1434", "Scheduler.load:454", "runnerRef.unload:586", "runnerRef.needsReload:623", "Scheduler.processPending:288", "Scheduler.processPending:301", "Scheduler.processCompleted:337", "Scheduler.processCompleted:357", "Scheduler.processCompleted:365", "Scheduler.processCompleted:371", "Scheduler.load:455", "ByDurationAndName.Less:702", "Scheduler.processCompleted$1:346", "Scheduler.load$1:476", "runnerRef.waitForVRAMRecovery$1:668", "Scheduler.load:465", "runnerRef.needsReload:615", "Scheduler.processCompleted:334", "Scheduler.processCompleted:335", "Scheduler.processCompleted:370", "LlmRequest.useLoadedRunner:416", "Scheduler.load:463", "Scheduler.findRunnerToUnload:809", "Scheduler.expireRunner:844", "Scheduler.load$1:474", "Server.PsHandler:1457", "Scheduler.processPending:293", "Scheduler.processCompleted:336", "LlmRequest.useLoadedRunner:422", "Scheduler.load:458", "ByDurationAndName.Less:696", "Scheduler.expireRunner:843"]
+def siteNames : List String := ["InitScheduler:70", "Scheduler.processPending:295", "Scheduler.processCompleted:342", "Scheduler.expireRunner:848", "Scheduler.processCompleted$1:353", "Scheduler.processCompleted$2:376", "Scheduler.load$1:480", "InitScheduler:69", "Scheduler.processPending:153", "Scheduler.processCompleted:325", "Scheduler.load$1$1:488", "InitScheduler:75", "Scheduler.processPending:167", "InitScheduler:74", "Scheduler.processPending:169", "InitScheduler:78", "Scheduler.processPending:217", "Server.PsHandler:1433", "InitScheduler:72", "Scheduler.processPending:145", "Scheduler.processCompleted:327", "Scheduler.processCompleted:391", "Scheduler.load:469", "Scheduler.load:470", "Scheduler.updateFreeSpace:501", "Scheduler.filterGPUsWithoutLoadingModels:541", "Scheduler.findRunnerToUnload:795", "Scheduler.findRunnerToUnload:796", "Scheduler.unloadAllRunners:827", "Scheduler.expireRunner:838", "InitScheduler:73", "Scheduler.load:441", "InitScheduler:68", "Scheduler.GetRunner:98", "Scheduler.processPending:123", "Scheduler.processPending$1:273", "InitScheduler:76", "Scheduler.processPending$1:272", "InitScheduler:71", "Scheduler.processPending:306", "Scheduler.processCompleted:399", "Server.GenerateRoutes:1206", "Serve:1308", "Server.scheduleRunner:109", "Server.GenerateHandler:167", "Serve:1329", "Serve:1355", "Server.PsHandler:1432", "Server.ChatHandler:1498", "blobDownload.release:432", "downloadBlob:498", "blobDownloadPart.Write:120", "blobDownload.Prepare:142", "blobDownload.Wait:450", "blobDownload.downloadChunk$1:346", "blobDownload.Prepare:178", "blobDownload.run:216", "blobDownload.Wait:447", "blobDownload.run$2:295", "blobDownload.downloadChunk$2:374", "blobDownloadPart.Name:106", "blobDownload.Prepare:128", "blobDownload.run:218", "blobDownload.run:322", "blobDownload.Prepare:143", "blobDownload.run:275", "blobDownload.newPart:391", "blobDownload.newPart:396", "blobDownload.Prepare:141", "blobDownload.Prepare:155", "blobDownload.run:225", "blobDownload.Wait:449", "blobDownload.Prepare:133", "blobDownload.Run:185", "blobDownload.Wait:443", "blobDownload.Run:186", "blobDownload.Wait:444", "blobDownload.acquire:427", "blobDownload.release:431", "blobDownloadPart.MarshalJSON:80", "blobDownloadPart.UnmarshalJSON:94", "blobDownloadPart.StartsAt:111", "blobDownload.run:277", "blobDownload.downloadChunk$1:343", "blobDownload.downloadChunk$1:350", "blobDownload.downloadChunk$2:364", "blobDownloadPart.MarshalJSON:77", "blobDownloadPart.UnmarshalJSON:90", "blobDownloadPart.MarshalJSON:78", "blobDownloadPart.UnmarshalJSON:91", "blobDownloadPart.StopsAt:115", "blobDownloadPart.MarshalJSON:79", "blobDownloadPart.UnmarshalJSON:92", "blobDownload.readPart:412", "blobDownloadPart.Write:122", "blobDownload.downloadChunk$2:369", "blobDownload.downloadChunk$2:377", "blobUpload.release:320", "uploadBlob:398", "blobUpload.Prepare:87", "blobUpload.Wait:340", "progressWriter.Write:365", "progressWriter.Rollback:370", "blobUpload.Prepare:54", "blobUpload.Run:128", "blobUpload.Run:196", "blobUpload.uploadPart:276", "blobUpload.Wait:337", "blobUpload.Run$1:161", "blobUpload.Prepare:107", "blobUpload.Run:145", "blobUpload.Prepare:82", "blobUpload.Wait:339", "blobUpload.Prepare:88", "blobUpload.Run:220", "blobUpload.Wait:343", "blobUpload.Run:132", "blobUpload.Run:175", "blobUpload.Wait:344", "blobUpload.Run:136", "blobUpload.Run:141", "blobUpload.uploadPart:233", "blobUpload.Prepare:120", "blobUpload.Prepare:121", "blobUpload.Run:149", "blobUpload.uploadPart:259", "blobUpload.acquire:315", "blobUpload.release:319", "blobUpload.uploadPart:310", "blobUpload.uploadPart:230", "blobUpload.Prepare:112", "blobUpload.uploadPart:226", "Server.CreateBlobHandler:1038", "Server.CreateBlobHandler:1047", "Scheduler.load:457", "runnerRef.unload:591", "runnerRef.needsReload:605", "runnerRef.needsReload:610", "Server.PsHandler:1446", "Scheduler.load:461", "Server.PsHandler:1447", "Scheduler.load:460", "runnerRef.waitForVRAMRecovery$1:683", "Scheduler.processPending:289", "Scheduler.processPending:290", "Scheduler.processPending:291", "Scheduler.processCompleted:338", "Scheduler.processCompleted:339", "Scheduler.processCompleted:340", "Scheduler.processCompleted:345", "LlmRequest.useLoadedRunner:417", "LlmRequest.useLoadedRunner:418", "LlmRequest.useLoadedRunner:419", "runnerRef.unload:582", "runnerRef.unload:583", "runnerRef.unload:584", "Scheduler.expireRunner:842", "Scheduler.expireRunner:843", "Scheduler.expireRunner:844", "Scheduler.processCompleted$1:349", "Scheduler.processCompleted$1:350", "Scheduler.processCompleted$1:351", "Server.PsHandler:1450", "Scheduler.processCompleted:355", "Scheduler.processCompleted:359", "Scheduler.expireRunner:841", "Scheduler.load:459", "Scheduler.filterGPUsWithoutLoadingModels:543", "runnerRef.unload:592", "runnerRef.waitForVRAMRecovery:649", "Server.scheduleRunner:117", "LlmRequest.useLoadedRunner:411", "Scheduler.load:456", "Scheduler.updateFreeSpace:503", "Scheduler.updateFreeSpace:505", "runnerRef.unload:586", "runnerRef.unload:587", "runnerRef.unload:590", "runnerRef.needsReload:629", "Scheduler.unloadAllRunners:828", "Scheduler.unloadAllRunners:830", "Scheduler.load:462", "Scheduler.filterGPUsWithoutLoadingModels:542", "runnerRef.needsReload:601", "Scheduler.load$1:484", "Server.PsHandler:1434", "Scheduler.load:454", "runnerRef.unload:589", "runnerRef.needsReload:626", "Scheduler.processPending:288", "Scheduler.processPending:301", "Scheduler.processCompleted:337", "Scheduler.processCompleted:357", "Scheduler.processCompleted:365", "Scheduler.processCompleted:371", "Scheduler.load:455", "ByDurationAndName.Less:705", "Scheduler.processCompleted$1:346", "Scheduler.load$1:479", "runnerRef.waitForVRAMRecovery$1:671", "Scheduler.load:465", "runnerRef.needsReload:618", "Scheduler.processCompleted:334", "Scheduler.processCompleted:335", "Scheduler.processCompleted:370", "LlmRequest.useLoadedRunner:416", "Scheduler.load:463", "Scheduler.findRunnerToUnload:812", "Scheduler.expireRunner:847", "Scheduler.load$1:477", "Server.PsHandler:1457", "Scheduler.processPending:293", "Scheduler.processCompleted:336", "LlmRequest.useLoadedRunner:422", "Scheduler.load:458", "ByDurationAndName.Less:699", "Scheduler.expireRunner:846"]
 def hbNames : List String := ["-", "holder (C01: no unload while a request holds the runner)", "doneclose (write before close(done), read after <-done)"]
 
 private def mk (site cls : Nat) (kind : Kind) (locks : List LockRef) (thread : Nat) (single init racy atomic : Bool)
@@ -17,14 +17,14 @@ def accesses : List Access := [
   mk 0 0 .write [] 18 true true false false [10, 11] [] [] true false false,  -- 0 Scheduler.expiredCh InitScheduler:70 @main
   mk 1 0 .read [] 0 true false false false [] [13] [] true false false,  -- 1 Scheduler.expiredCh Scheduler.processPending:295 @Scheduler.Run$1
   mk 2 0 .read [] 1 true false false false [] [14] [] true false false,  -- 2 Scheduler.expiredCh Scheduler.processCompleted:342 @Scheduler.Run$2
-  mk 3 0 .read [⟨0, false⟩] 11 false false false false [] [11] [] true false false,  -- 3 Scheduler.expiredCh Scheduler.expireRunner:845 @api
+  mk 3 0 .read [⟨0, false⟩] 11 false false false false [] [11] [] true false false,  -- 3 Scheduler.expiredCh Scheduler.expireRunner:848 @api
   mk 4 0 .read [] 4 false false false false [] [14] [] true false false,  -- 4 Scheduler.expiredCh Scheduler.processCompleted$1:353 @Scheduler.processCompleted$1
   mk 5 0 .read [] 5 false false false false [] [14] [] true false false,  -- 5 Scheduler.expiredCh Scheduler.processCompleted$2:376 @Scheduler.processCompleted$2
-  mk 6 0 .read [] 2 false false false false [] [13] [] true false false,  -- 6 Scheduler.expiredCh Scheduler.load$1:477 @Scheduler.load$1
+  mk 6 0 .read [] 2 false false false false [] [13] [] true false false,  -- 6 Scheduler.expiredCh Scheduler.load$1:480 @Scheduler.load$1
   mk 7 1 .write [] 18 true true false false [10, 11] [] [] true false false,  -- 7 Scheduler.finishedReqCh InitScheduler:69 @main
   mk 8 1 .read [] 0 true false false false [] [13] [] true false false,  -- 8 Scheduler.finishedReqCh Scheduler.processPending:153 @Scheduler.Run$1
   mk 9 1 .read [] 1 true false false false [] [14] [] true false false,  -- 9 Scheduler.finishedReqCh Scheduler.processCompleted:325 @Scheduler.Run$2
-  mk 10 1 .read [] 3 false false false false [] [13] [] true false false,  -- 10 Scheduler.finishedReqCh Scheduler.load$1$1:485 @Scheduler.load$1$1
+  mk 10 1 .read [] 3 false false false false [] [13] [] true false false,  -- 10 Scheduler.finishedReqCh Scheduler.load$1$1:488 @Scheduler.load$1$1
   mk 11 2 .write [] 18 true true false false [10, 11] [] [] true false false,  -- 11 Scheduler.getCpuFn InitScheduler:75 @main
   mk 12 2 .read [] 0 true false false false [] [13] [] true false false,  -- 12 Scheduler.getCpuFn Scheduler.processPending:167 @Scheduler.Run$1
   mk 13 3 .write [] 18 true true false false [10, 11] [] [] true false false,  -- 13 Scheduler.getGpuFn InitScheduler:74 @main
@@ -36,14 +36,14 @@ def accesses : List Access := [
   mk 19 5 .mapRead [⟨0, false⟩] 0 true false false false [] [13] [] true false false,  -- 19 Scheduler.loaded Scheduler.processPending:145 @Scheduler.Run$1
   mk 20 5 .mapRead [⟨0, false⟩] 1 true false false false [] [14] [] true false false,  -- 20 Scheduler.loaded Scheduler.processCompleted:327 @Scheduler.Run$2
   mk 21 5 .mapDelete [⟨0, false⟩] 1 true false false false [] [14] [] true false false,  -- 21 Scheduler.loaded Scheduler.processCompleted:391 @Scheduler.Run$2
-  mk 22 5 .mapIter [⟨0, false⟩] 0 true false false false [] [13] [] true false false,  -- 22 Scheduler.loaded Scheduler.updateFreeSpace:498 @Scheduler.Run$1
-  mk 23 5 .mapIter [⟨0, false⟩] 0 true false false false [] [13] [] true false false,  -- 23 Scheduler.loaded Scheduler.filterGPUsWithoutLoadingModels:538 @Scheduler.Run$1
-  mk 24 5 .mapRead [⟨0, false⟩] 0 true false false false [] [13] [] true false false,  -- 24 Scheduler.loaded Scheduler.findRunnerToUnload:792 @Scheduler.Run$1
-  mk 25 5 .mapIter [⟨0, false⟩] 0 true false false false [] [13] [] true false false,  -- 25 Scheduler.loaded Scheduler.findRunnerToUnload:793 @Scheduler.Run$1
-  mk 26 5 .mapIter [⟨0, false⟩] 7 true false false false [] [10] [] true false false,  -- 26 Scheduler.loaded Scheduler.unloadAllRunners:824 @Serve$2
-  mk 27 5 .mapRead [⟨0, false⟩] 11 false false false false [] [11] [] true false false,  -- 27 Scheduler.loaded Scheduler.expireRunner:835 @api
-  mk 28 5 .mapInsert [⟨0, false⟩] 0 true false false false [] [13] [] true false false,  -- 28 Scheduler.loaded Scheduler.publish:870 @Scheduler.Run$1
-  mk 29 5 .mapRead [⟨0, false⟩] 0 true false false false [] [13] [] true false false,  -- 29 Scheduler.loaded Scheduler.publish:871 @Scheduler.Run$1
+  mk 22 5 .mapInsert [⟨0, false⟩] 0 true false false false [] [13] [] true false false,  -- 22 Scheduler.loaded Scheduler.load:469 @Scheduler.Run$1
+  mk 23 5 .mapRead [⟨0, false⟩] 0 true false false false [] [13] [] true false false,  -- 23 Scheduler.loaded Scheduler.load:470 @Scheduler.Run$1
+  mk 24 5 .mapIter [⟨0, false⟩] 0 true false false false [] [13] [] true false false,  -- 24 Scheduler.loaded Scheduler.updateFreeSpace:501 @Scheduler.Run$1
+  mk 25 5 .mapIter [⟨0, false⟩] 0 true false false false [] [13] [] true false false,  -- 25 Scheduler.loaded Scheduler.filterGPUsWithoutLoadingModels:541 @Scheduler.Run$1
+  mk 26 5 .mapRead [⟨0, false⟩] 0 true false false false [] [13] [] true false false,  -- 26 Scheduler.loaded Scheduler.findRunnerToUnload:795 @Scheduler.Run$1
+  mk 27 5 .mapIter [⟨0, false⟩] 0 true false false false [] [13] [] true false false,  -- 27 Scheduler.loaded Scheduler.findRunnerToUnload:796 @Scheduler.Run$1
+  mk 28 5 .mapIter [⟨0, false⟩] 7 true false false false [] [10] [] true false false,  -- 28 Scheduler.loaded Scheduler.unloadAllRunners:827 @Serve$2
+  mk 29 5 .mapRead [⟨0, false⟩] 11 false false false false [] [11] [] true false false,  -- 29 Scheduler.loaded Scheduler.expireRunner:838 @api
   mk 30 6 .write [] 18 true true false false [10, 11] [] [] true false false,  -- 30 Scheduler.newServerFn InitScheduler:73 @main
   mk 31 6 .read [] 0 true false false false [] [13] [] true false false,  -- 31 Scheduler.newServerFn Scheduler.load:441 @Scheduler.Run$1
   mk 32 7 .write [] 18 true true false false [10, 11] [] [] true false false,  -- 32 Scheduler.pendingReqCh InitScheduler:68 @main
@@ -219,14 +219,14 @@ def accesses : List Access := [
   mk 132 43 .mapRead [] 11 false false false false [] [11] [] true false false,  -- 202 global.intermediateBlobs Server.CreateBlobHandler:1038 @api
   mk 133 43 .mapDelete [] 11 false false false false [] [11] [] true false false,  -- 203 global.intermediateBlobs Server.CreateBlobHandler:1047 @api
   mk 134 44 .write [] 0 true true false false [] [13] [] true false false,  -- 204 runnerRef.Options Scheduler.load:457 @Scheduler.Run$1
-  mk 135 44 .write [⟨0, false⟩, ⟨2, true⟩] 1 true false false false [] [14] [1] true false false,  -- 205 runnerRef.Options runnerRef.unload:588 @Scheduler.Run$2
-  mk 136 44 .read [⟨2, true⟩] 0 true false false false [] [13] [] false false false,  -- 206 runnerRef.Options runnerRef.needsReload:602 @Scheduler.Run$1
-  mk 137 44 .read [⟨2, true⟩] 0 true false false false [] [13] [] true false true,  -- 207 runnerRef.Options runnerRef.needsReload:607 @Scheduler.Run$1
+  mk 135 44 .write [⟨0, false⟩, ⟨2, true⟩] 1 true false false false [] [14] [1] true false false,  -- 205 runnerRef.Options runnerRef.unload:591 @Scheduler.Run$2
+  mk 136 44 .read [⟨2, true⟩] 0 true false false false [] [13] [] false false false,  -- 206 runnerRef.Options runnerRef.needsReload:605 @Scheduler.Run$1
+  mk 137 44 .read [⟨2, true⟩] 0 true false false false [] [13] [] true false true,  -- 207 runnerRef.Options runnerRef.needsReload:610 @Scheduler.Run$1
   mk 138 45 .read [⟨0, false⟩] 11 false false false false [] [11] [] true true false,  -- 208 runnerRef.estimatedTotal Server.PsHandler:1446 @api
   mk 139 45 .write [] 0 true true false false [] [13] [] true false false,  -- 209 runnerRef.estimatedTotal Scheduler.load:461 @Scheduler.Run$1
   mk 140 46 .read [⟨0, false⟩] 11 false false false false [] [11] [] true true false,  -- 210 runnerRef.estimatedVRAM Server.PsHandler:1447 @api
   mk 141 46 .write [] 0 true true false false [] [13] [] true false false,  -- 211 runnerRef.estimatedVRAM Scheduler.load:460 @Scheduler.Run$1
-  mk 142 46 .read [] 19 false false false false [] [14] [] true false false,  -- 212 runnerRef.estimatedVRAM runnerRef.waitForVRAMRecovery$1:680 @runnerRef.waitForVRAMRecovery$1
+  mk 142 46 .read [] 19 false false false false [] [14] [] true false false,  -- 212 runnerRef.estimatedVRAM runnerRef.waitForVRAMRecovery$1:683 @runnerRef.waitForVRAMRecovery$1
   mk 143 47 .read [⟨2, true⟩] 0 true false false false [] [13] [] false false false,  -- 213 runnerRef.expireTimer Scheduler.processPending:289 @Scheduler.Run$1
   mk 144 47 .read [⟨2, true⟩] 0 true false false false [] [13] [] true false true,  -- 214 runnerRef.expireTimer Scheduler.processPending:290 @Scheduler.Run$1
   mk 145 47 .write [⟨2, true⟩] 0 true false false false [] [13] [] true false true,  -- 215 runnerRef.expireTimer Scheduler.processPending:291 @Scheduler.Run$1
@@ -237,42 +237,42 @@ def accesses : List Access := [
   mk 150 47 .read [⟨2, true⟩] 0 true false false false [] [13] [] false false true,  -- 220 runnerRef.expireTimer LlmRequest.useLoadedRunner:417 @Scheduler.Run$1
   mk 151 47 .read [⟨2, true⟩] 0 true false false false [] [13] [] true false true,  -- 221 runnerRef.expireTimer LlmRequest.useLoadedRunner:418 @Scheduler.Run$1
   mk 152 47 .write [⟨2, true⟩] 0 true false false false [] [13] [] true false true,  -- 222 runnerRef.expireTimer LlmRequest.useLoadedRunner:419 @Scheduler.Run$1
-  mk 153 47 .read [⟨0, false⟩, ⟨2, true⟩] 1 true false false false [] [14] [1] false false false,  -- 223 runnerRef.expireTimer runnerRef.unload:579 @Scheduler.Run$2
-  mk 154 47 .read [⟨0, false⟩, ⟨2, true⟩] 1 true false false false [] [14] [1] true false true,  -- 224 runnerRef.expireTimer runnerRef.unload:580 @Scheduler.Run$2
-  mk 155 47 .write [⟨0, false⟩, ⟨2, true⟩] 1 true false false false [] [14] [1] true false true,  -- 225 runnerRef.expireTimer runnerRef.unload:581 @Scheduler.Run$2
-  mk 156 47 .read [⟨0, false⟩, ⟨2, true⟩] 11 false false false false [] [11] [] false true false,  -- 226 runnerRef.expireTimer Scheduler.expireRunner:839 @api
-  mk 157 47 .read [⟨0, false⟩, ⟨2, true⟩] 11 false false false false [] [11] [] true true true,  -- 227 runnerRef.expireTimer Scheduler.expireRunner:840 @api
-  mk 158 47 .write [⟨0, false⟩, ⟨2, true⟩] 11 false false false false [] [11] [] true true true,  -- 228 runnerRef.expireTimer Scheduler.expireRunner:841 @api
+  mk 153 47 .read [⟨0, false⟩, ⟨2, true⟩] 1 true false false false [] [14] [1] false false false,  -- 223 runnerRef.expireTimer runnerRef.unload:582 @Scheduler.Run$2
+  mk 154 47 .read [⟨0, false⟩, ⟨2, true⟩] 1 true false false false [] [14] [1] true false true,  -- 224 runnerRef.expireTimer runnerRef.unload:583 @Scheduler.Run$2
+  mk 155 47 .write [⟨0, false⟩, ⟨2, true⟩] 1 true false false false [] [14] [1] true false true,  -- 225 runnerRef.expireTimer runnerRef.unload:584 @Scheduler.Run$2
+  mk 156 47 .read [⟨0, false⟩, ⟨2, true⟩] 11 false false false false [] [11] [] false true false,  -- 226 runnerRef.expireTimer Scheduler.expireRunner:842 @api
+  mk 157 47 .read [⟨0, false⟩, ⟨2, true⟩] 11 false false false false [] [11] [] true true true,  -- 227 runnerRef.expireTimer Scheduler.expireRunner:843 @api
+  mk 158 47 .write [⟨0, false⟩, ⟨2, true⟩] 11 false false false false [] [11] [] true true true,  -- 228 runnerRef.expireTimer Scheduler.expireRunner:844 @api
   mk 159 47 .read [⟨2, true⟩] 4 false false false false [] [14] [] false false false,  -- 229 runnerRef.expireTimer Scheduler.processCompleted$1:349 @Scheduler.processCompleted$1
   mk 160 47 .read [⟨2, true⟩] 4 false false false false [] [14] [] true false true,  -- 230 runnerRef.expireTimer Scheduler.processCompleted$1:350 @Scheduler.processCompleted$1
   mk 161 47 .write [⟨2, true⟩] 4 false false false false [] [14] [] true false true,  -- 231 runnerRef.expireTimer Scheduler.processCompleted$1:351 @Scheduler.processCompleted$1
   mk 162 48 .read [⟨0, false⟩] 11 false false false false [] [11] [] true true false,  -- 232 runnerRef.expiresAt Server.PsHandler:1450 @api
   mk 163 48 .write [⟨2, true⟩] 1 true false false false [] [14] [] true false false,  -- 233 runnerRef.expiresAt Scheduler.processCompleted:355 @Scheduler.Run$2
   mk 164 48 .write [⟨2, true⟩] 1 true false false false [] [14] [] true false true,  -- 234 runnerRef.expiresAt Scheduler.processCompleted:359 @Scheduler.Run$2
-  mk 165 48 .write [⟨0, false⟩, ⟨2, true⟩] 11 false false false false [] [11] [] true true false,  -- 235 runnerRef.expiresAt Scheduler.expireRunner:838 @api
+  mk 165 48 .write [⟨0, false⟩, ⟨2, true⟩] 11 false false false false [] [11] [] true true false,  -- 235 runnerRef.expiresAt Scheduler.expireRunner:841 @api
   mk 166 49 .write [] 0 true true false false [] [13] [] true false false,  -- 236 runnerRef.gpus Scheduler.load:459 @Scheduler.Run$1
-  mk 167 49 .read [⟨0, false⟩] 0 true false false false [] [13] [] true true false,  -- 237 runnerRef.gpus Scheduler.filterGPUsWithoutLoadingModels:540 @Scheduler.Run$1
-  mk 168 49 .write [⟨0, false⟩, ⟨2, true⟩] 1 true false false false [] [14] [1] true false false,  -- 238 runnerRef.gpus runnerRef.unload:589 @Scheduler.Run$2
-  mk 169 49 .read [⟨0, false⟩, ⟨2, true⟩] 1 true false false false [] [14] [] true false false,  -- 239 runnerRef.gpus runnerRef.waitForVRAMRecovery:646 @Scheduler.Run$2
+  mk 167 49 .read [⟨0, false⟩] 0 true false false false [] [13] [] true true false,  -- 237 runnerRef.gpus Scheduler.filterGPUsWithoutLoadingModels:543 @Scheduler.Run$1
+  mk 168 49 .write [⟨0, false⟩, ⟨2, true⟩] 1 true false false false [] [14] [1] true false false,  -- 238 runnerRef.gpus runnerRef.unload:592 @Scheduler.Run$2
+  mk 169 49 .read [⟨0, false⟩, ⟨2, true⟩] 1 true false false false [] [14] [] true false false,  -- 239 runnerRef.gpus runnerRef.waitForVRAMRecovery:649 @Scheduler.Run$2
   mk 170 50 .read [] 11 false false false false [] [11] [1] true false false,  -- 240 runnerRef.llama Server.scheduleRunner:117 @api
   mk 171 50 .read [⟨2, true⟩] 0 true false false false [] [13] [] false false false,  -- 241 runnerRef.llama LlmRequest.useLoadedRunner:411 @Scheduler.Run$1
   mk 172 50 .write [] 0 true true false false [] [13] [] true false false,  -- 242 runnerRef.llama Scheduler.load:456 @Scheduler.Run$1
-  mk 173 50 .read [⟨0, false⟩, ⟨2, true⟩] 0 true false false false [] [13] [] false true false,  -- 243 runnerRef.llama Scheduler.updateFreeSpace:500 @Scheduler.Run$1
-  mk 174 50 .read [⟨0, false⟩, ⟨2, true⟩] 0 true false false false [] [13] [] true true true,  -- 244 runnerRef.llama Scheduler.updateFreeSpace:502 @Scheduler.Run$1
-  mk 175 50 .read [⟨0, false⟩, ⟨2, true⟩] 1 true false false false [] [14] [1] false false false,  -- 245 runnerRef.llama runnerRef.unload:583 @Scheduler.Run$2
-  mk 176 50 .read [⟨0, false⟩, ⟨2, true⟩] 1 true false false false [] [14] [1] true false true,  -- 246 runnerRef.llama runnerRef.unload:584 @Scheduler.Run$2
-  mk 177 50 .write [⟨0, false⟩, ⟨2, true⟩] 1 true false false false [] [14] [1] true false false,  -- 247 runnerRef.llama runnerRef.unload:587 @Scheduler.Run$2
-  mk 178 50 .read [⟨2, true⟩] 0 true false false false [] [13] [] true false true,  -- 248 runnerRef.llama runnerRef.needsReload:626 @Scheduler.Run$1
-  mk 179 50 .read [⟨0, false⟩] 7 true false false false [] [10] [] false true false,  -- 249 runnerRef.llama Scheduler.unloadAllRunners:825 @Serve$2
-  mk 180 50 .read [⟨0, false⟩] 7 true false false false [] [10] [] true true false,  -- 250 runnerRef.llama Scheduler.unloadAllRunners:827 @Serve$2
+  mk 173 50 .read [⟨0, false⟩, ⟨2, true⟩] 0 true false false false [] [13] [] false true false,  -- 243 runnerRef.llama Scheduler.updateFreeSpace:503 @Scheduler.Run$1
+  mk 174 50 .read [⟨0, false⟩, ⟨2, true⟩] 0 true false false false [] [13] [] true true true,  -- 244 runnerRef.llama Scheduler.updateFreeSpace:505 @Scheduler.Run$1
+  mk 175 50 .read [⟨0, false⟩, ⟨2, true⟩] 1 true false false false [] [14] [1] false false false,  -- 245 runnerRef.llama runnerRef.unload:586 @Scheduler.Run$2
+  mk 176 50 .read [⟨0, false⟩, ⟨2, true⟩] 1 true false false false [] [14] [1] true false true,  -- 246 runnerRef.llama runnerRef.unload:587 @Scheduler.Run$2
+  mk 177 50 .write [⟨0, false⟩, ⟨2, true⟩] 1 true false false false [] [14] [1] true false false,  -- 247 runnerRef.llama runnerRef.unload:590 @Scheduler.Run$2
+  mk 178 50 .read [⟨2, true⟩] 0 true false false false [] [13] [] true false true,  -- 248 runnerRef.llama runnerRef.needsReload:629 @Scheduler.Run$1
+  mk 179 50 .read [⟨0, false⟩] 7 true false false false [] [10] [] false true false,  -- 249 runnerRef.llama Scheduler.unloadAllRunners:828 @Serve$2
+  mk 180 50 .read [⟨0, false⟩] 7 true false false false [] [10] [] true true false,  -- 250 runnerRef.llama Scheduler.unloadAllRunners:830 @Serve$2
   mk 181 51 .write [] 0 true true false false [] [13] [] true false false,  -- 251 runnerRef.loading Scheduler.load:462 @Scheduler.Run$1
-  mk 182 51 .read [⟨0, false⟩] 0 true false false false [] [13] [] true true false,  -- 252 runnerRef.loading Scheduler.filterGPUsWithoutLoadingModels:539 @Scheduler.Run$1
-  mk 183 51 .read [⟨2, true⟩] 0 true false false false [] [13] [] true false false,  -- 253 runnerRef.loading runnerRef.needsReload:598 @Scheduler.Run$1
-  mk 184 51 .write [⟨2, true⟩] 2 false false false false [] [13] [] true false false,  -- 254 runnerRef.loading Scheduler.load$1:481 @Scheduler.load$1
+  mk 182 51 .read [⟨0, false⟩] 0 true false false false [] [13] [] true true false,  -- 252 runnerRef.loading Scheduler.filterGPUsWithoutLoadingModels:542 @Scheduler.Run$1
+  mk 183 51 .read [⟨2, true⟩] 0 true false false false [] [13] [] true false false,  -- 253 runnerRef.loading runnerRef.needsReload:601 @Scheduler.Run$1
+  mk 184 51 .write [⟨2, true⟩] 2 false false false false [] [13] [] true false false,  -- 254 runnerRef.loading Scheduler.load$1:484 @Scheduler.load$1
   mk 185 52 .read [⟨0, false⟩] 11 false false false false [] [11] [] true true false,  -- 255 runnerRef.model Server.PsHandler:1434 @api
   mk 186 52 .write [] 0 true true false false [] [13] [] true false false,  -- 256 runnerRef.model Scheduler.load:454 @Scheduler.Run$1
-  mk 187 52 .write [⟨0, false⟩, ⟨2, true⟩] 1 true false false false [] [14] [1] true false false,  -- 257 runnerRef.model runnerRef.unload:586 @Scheduler.Run$2
-  mk 188 52 .read [⟨2, true⟩] 0 true false false false [] [13] [] true false true,  -- 258 runnerRef.model runnerRef.needsReload:623 @Scheduler.Run$1
+  mk 187 52 .write [⟨0, false⟩, ⟨2, true⟩] 1 true false false false [] [14] [1] true false false,  -- 257 runnerRef.model runnerRef.unload:589 @Scheduler.Run$2
+  mk 188 52 .read [⟨2, true⟩] 0 true false false false [] [13] [] true false true,  -- 258 runnerRef.model runnerRef.needsReload:626 @Scheduler.Run$1
   mk 189 53 .read [⟨2, true⟩] 0 true false false false [] [13] [] true false false,  -- 259 runnerRef.modelPath Scheduler.processPending:288 @Scheduler.Run$1
   mk 190 53 .read [] 0 true false false false [] [13] [] true false false,  -- 260 runnerRef.modelPath Scheduler.processPending:301 @Scheduler.Run$1
   mk 191 53 .read [⟨2, true⟩] 1 true false false false [] [14] [] true false false,  -- 261 runnerRef.modelPath Scheduler.processCompleted:337 @Scheduler.Run$2
@@ -280,30 +280,30 @@ def accesses : List Access := [
   mk 193 53 .read [] 1 true false false false [] [14] [] true false false,  -- 263 runnerRef.modelPath Scheduler.processCompleted:365 @Scheduler.Run$2
   mk 194 53 .read [⟨0, false⟩, ⟨2, true⟩] 1 true false false false [] [14] [] true false false,  -- 264 runnerRef.modelPath Scheduler.processCompleted:371 @Scheduler.Run$2
   mk 195 53 .write [] 0 true true false false [] [13] [] true false false,  -- 265 runnerRef.modelPath Scheduler.load:455 @Scheduler.Run$1
-  mk 167 53 .read [⟨0, false⟩] 0 true false false false [] [13] [] true true false,  -- 266 runnerRef.modelPath Scheduler.filterGPUsWithoutLoadingModels:540 @Scheduler.Run$1
-  mk 196 53 .read [] 0 true false false false [] [13] [] true false false,  -- 267 runnerRef.modelPath ByDurationAndName.Less:702 @Scheduler.Run$1
+  mk 167 53 .read [⟨0, false⟩] 0 true false false false [] [13] [] true true false,  -- 266 runnerRef.modelPath Scheduler.filterGPUsWithoutLoadingModels:543 @Scheduler.Run$1
+  mk 196 53 .read [] 0 true false false false [] [13] [] true false false,  -- 267 runnerRef.modelPath ByDurationAndName.Less:705 @Scheduler.Run$1
   mk 197 53 .read [] 4 false false false false [] [14] [] true false false,  -- 268 runnerRef.modelPath Scheduler.processCompleted$1:346 @Scheduler.processCompleted$1
-  mk 198 53 .read [⟨2, true⟩] 2 false false false false [] [13] [] true false false,  -- 269 runnerRef.modelPath Scheduler.load$1:476 @Scheduler.load$1
-  mk 199 53 .read [] 19 false false false false [] [14] [] true false false,  -- 270 runnerRef.modelPath runnerRef.waitForVRAMRecovery$1:668 @runnerRef.waitForVRAMRecovery$1
+  mk 198 53 .read [⟨2, true⟩] 2 false false false false [] [13] [] true false false,  -- 269 runnerRef.modelPath Scheduler.load$1:479 @Scheduler.load$1
+  mk 199 53 .read [] 19 false false false false [] [14] [] true false false,  -- 270 runnerRef.modelPath runnerRef.waitForVRAMRecovery$1:671 @runnerRef.waitForVRAMRecovery$1
   mk 200 54 .write [] 0 true true false false [] [13] [] true false false,  -- 271 runnerRef.numParallel Scheduler.load:465 @Scheduler.Run$1
-  mk 201 54 .read [⟨2, true⟩] 0 true false false false [] [13] [] true false true,  -- 272 runnerRef.numParallel runnerRef.needsReload:615 @Scheduler.Run$1
+  mk 201 54 .read [⟨2, true⟩] 0 true false false false [] [13] [] true false true,  -- 272 runnerRef.numParallel runnerRef.needsReload:618 @Scheduler.Run$1
   mk 189 55 .read [⟨2, true⟩] 0 true false false false [] [13] [] true false false,  -- 273 runnerRef.refCount Scheduler.processPending:288 @Scheduler.Run$1
   mk 202 55 .write [⟨2, true⟩] 1 true false false false [] [14] [] true false false,  -- 274 runnerRef.refCount Scheduler.processCompleted:334 @Scheduler.Run$2
   mk 203 55 .read [⟨2, true⟩] 1 true false false false [] [14] [] true false false,  -- 275 runnerRef.refCount Scheduler.processCompleted:335 @Scheduler.Run$2
   mk 204 55 .read [⟨0, false⟩, ⟨2, true⟩] 1 true false false false [] [14] [] true false false,  -- 276 runnerRef.refCount Scheduler.processCompleted:370 @Scheduler.Run$2
   mk 205 55 .write [⟨2, true⟩] 0 true false false false [] [13] [] true false true,  -- 277 runnerRef.refCount LlmRequest.useLoadedRunner:416 @Scheduler.Run$1
   mk 206 55 .write [] 0 true true false false [] [13] [] true false false,  -- 278 runnerRef.refCount Scheduler.load:463 @Scheduler.Run$1
-  mk 207 55 .read [⟨2, true⟩] 0 true false false false [] [13] [] true false false,  -- 279 runnerRef.refCount Scheduler.findRunnerToUnload:809 @Scheduler.Run$1
-  mk 208 55 .read [⟨0, false⟩, ⟨2, true⟩] 11 false false false false [] [11] [] true true false,  -- 280 runnerRef.refCount Scheduler.expireRunner:844 @api
-  mk 209 55 .write [⟨2, true⟩] 2 false false false false [] [13] [] true false false,  -- 281 runnerRef.refCount Scheduler.load$1:474 @Scheduler.load$1
+  mk 207 55 .read [⟨2, true⟩] 0 true false false false [] [13] [] true false false,  -- 279 runnerRef.refCount Scheduler.findRunnerToUnload:812 @Scheduler.Run$1
+  mk 208 55 .read [⟨0, false⟩, ⟨2, true⟩] 11 false false false false [] [11] [] true true false,  -- 280 runnerRef.refCount Scheduler.expireRunner:847 @api
+  mk 209 55 .write [⟨2, true⟩] 2 false false false false [] [13] [] true false false,  -- 281 runnerRef.refCount Scheduler.load$1:477 @Scheduler.load$1
   mk 210 56 .read [⟨0, false⟩] 11 false false false false [] [11] [] true true false,  -- 282 runnerRef.sessionDuration Server.PsHandler:1457 @api
   mk 211 56 .write [⟨2, true⟩] 0 true false false false [] [13] [] true false false,  -- 283 runnerRef.sessionDuration Scheduler.processPending:293 @Scheduler.Run$1
   mk 212 56 .read [⟨2, true⟩] 1 true false false false [] [14] [] true false false,  -- 284 runnerRef.sessionDuration Scheduler.processCompleted:336 @Scheduler.Run$2
   mk 192 56 .read [⟨2, true⟩] 1 true false false false [] [14] [] true false true,  -- 285 runnerRef.sessionDuration Scheduler.processCompleted:357 @Scheduler.Run$2
   mk 213 56 .write [⟨2, true⟩] 0 true false false false [] [13] [] true false true,  -- 286 runnerRef.sessionDuration LlmRequest.useLoadedRunner:422 @Scheduler.Run$1
   mk 214 56 .write [] 0 true true false false [] [13] [] true false false,  -- 287 runnerRef.sessionDuration Scheduler.load:458 @Scheduler.Run$1
-  mk 215 56 .read [] 0 true false false false [] [13] [] true false false,  -- 288 runnerRef.sessionDuration ByDurationAndName.Less:696 @Scheduler.Run$1
-  mk 216 56 .write [⟨0, false⟩, ⟨2, true⟩] 11 false false false false [] [11] [] true true false  -- 289 runnerRef.sessionDuration Scheduler.expireRunner:843 @api
+  mk 215 56 .read [] 0 true false false false [] [13] [] true false false,  -- 288 runnerRef.sessionDuration ByDurationAndName.Less:699 @Scheduler.Run$1
+  mk 216 56 .write [⟨0, false⟩, ⟨2, true⟩] 11 false false false false [] [11] [] true true false  -- 289 runnerRef.sessionDuration Scheduler.expireRunner:846 @api
 ]
 
 /-- (class, site, site) of the pairs the translator's own implementation of the rule rejects -/
@@ -328,6 +328,6 @@ def lockOrderEdges : List (Nat × Nat) := [(0, 2)]
 def lockOrderFreshEdges : List (Nat × Nat) := [(2, 0)]
 /-- the translator's topological rank of each mutex class (all 0 when it found a cycle) -/
 def lockRank : List Nat := [1, 1, 2]
-def lockOrderSites : List String := ["g:Scheduler.loadedMu -> s:runnerRef.refMu at Scheduler.expireRunner:837 fresh=false", "g:Scheduler.loadedMu -> s:runnerRef.refMu at Scheduler.processCompleted:369 fresh=false", "g:Scheduler.loadedMu -> s:runnerRef.refMu at Scheduler.updateFreeSpace:499 fresh=false", "s:runnerRef.refMu -> g:Scheduler.loadedMu at Scheduler.publish:868 fresh=true"]
+def lockOrderSites : List String := ["g:Scheduler.loadedMu -> s:runnerRef.refMu at Scheduler.expireRunner:840 fresh=false", "g:Scheduler.loadedMu -> s:runnerRef.refMu at Scheduler.processCompleted:369 fresh=false", "g:Scheduler.loadedMu -> s:runnerRef.refMu at Scheduler.updateFreeSpace:502 fresh=false", "s:runnerRef.refMu -> g:Scheduler.loadedMu at Scheduler.load:468 fresh=true"]
 
 end OllamaVerif.Generated.C15
